@@ -29,9 +29,7 @@ type mutantResult struct {
 }
 
 // expectedMiss: seeded changes that break a clause the check explicitly does not decide.
-var expectedMiss = map[string]string{
-	"seeded/C12-2": "changes the integer arithmetic of numRequiredTransitionValidators (> 2/3 bound): declared not decided (no sound static argument in reach)",
-}
+var expectedMiss = map[string]string{}
 
 // prefixMap: reversed fix commits and the properties whose checks must flag the pre-fix tree.
 var prefixMap = map[string][]string{
